@@ -236,6 +236,29 @@ func (c *Ctx) alwaysSliceIface(v ssa.Value, depth int) bool {
 		return len(x.Edges) > 0
 	case *ssa.ChangeInterface:
 		return c.alwaysSliceIface(x.X, depth+1)
+	case *ssa.Extract:
+		// result k of a library helper: every return hands out a slice there, or nil together with an error
+		call, ok := x.Tuple.(*ssa.Call)
+		if !ok {
+			return false
+		}
+		f := call.Common().StaticCallee()
+		if f == nil || !isLibFn(f) || f.Blocks == nil {
+			return false
+		}
+		ei := errResultIndex(f.Signature)
+		n := 0
+		for _, r := range returnsOf(f) {
+			n++
+			if c.alwaysSliceIface(r.Results[x.Index], depth+1) {
+				continue
+			}
+			if isNilConst(r.Results[x.Index]) && ei >= 0 && c.definitelyNonNilErr(r.Results[ei], r.Block(), 0) {
+				continue
+			}
+			return false
+		}
+		return n > 0
 	}
 	return false
 }
